@@ -34,7 +34,7 @@ func encodeWithAnnotation(name string) string {
 
 func runC18(r *Result, d *drv.Driver, tier string, seed int64, replay string) {
 	r.Rule = "exhaustive: every (spec name, number) of the transcribed KMIP 1.0-1.4 registry (292 tags, 10 item types, 43 operations, 4 result statuses, 25 result reasons, 3 credential types, plus 12 further enumeration groups) " +
-		"against the constant of that name as compiled; every key of the tagMap literal resolved through the real Encode (struct-tag path - carried by an embedded, exported, blank or unexported Tag field - and field path); all pairs of tag names for shared numbers. distinct = one per (name, number) pair"
+		"against the constant of that name as compiled; every key of the tagMap literal resolved through the real Encode (struct-tag path - carried by an embedded, exported, blank or unexported Tag field - and field path, incl. single / repeated structure-typed fields whose element type declares another tag); all pairs of tag names for shared numbers. distinct = one per (name, number) pair"
 	r.Exhaustive = true
 	rep, err := d.Ask("c18")
 	if err != nil || !strings.HasPrefix(rep, "ok ") {
@@ -82,7 +82,7 @@ func init() { props["C19"] = runC19 }
 
 func runC19(r *Result, d *drv.Driver, tier string, seed int64, replay string) {
 	r.Rule = "exhaustive: every annotated field of every exported struct type (195 fields, 58 types) — the number its annotation resolves to through the real Encode against the tag KMIP 1.4 assigns (SpecStructs, transcribed independently); " +
-		"every (struct type, tag it is written under) pair against the structure the spec puts directly around the type's items; wire probe: populated instances of every struct type through the real Encode, the tags of the emitted child items against the numbers the annotations denote (the numbers GenC19 proves equal to the spec's); large messages (4..40 KiB): one well-nested item, every structure length exactly enclosing its children, tag tree equal to the independent serializer's. distinct = one per field / per (type, container) pair"
+		"every (struct type, tag it is written under) pair against the structure the spec puts directly around the type's items; wire probe: populated instances of every struct type through the real Encode, the tags of the emitted child items against the numbers the annotations denote (the numbers GenC19 proves equal to the spec's); large messages (4..40 KiB) and messages with modelled structures in the dynamically typed positions (by value and by pointer): one well-nested item, every structure length exactly enclosing its children, tag tree equal to the independent serializer's. distinct = one per field / per (type, container) pair"
 	r.Exhaustive = true
 	rep, err := d.Ask("c19")
 	if err != nil || !strings.HasPrefix(rep, "ok ") {
@@ -437,10 +437,60 @@ func c18MarkerForms(r *Result) {
 		{"unexported field tag Tag", reflect.StructField{Name: "tag", PkgPath: "main", Type: tTag}},
 	}
 	bad := 0
+	// an element type that declares its OWN tag (Activation Date), used under a field annotated with another name: alone and as
+	// the element of a repeated field (pointer-typed fields are not supported by the codec) - the field's annotation decides
+	elem := reflect.StructOf([]reflect.StructField{
+		{Name: "Tag", Type: tTag, Anonymous: true, Tag: `kmip:"ACTIVATION_DATE"`},
+		{Name: "V", Type: reflect.TypeOf(int32(0)), Tag: `kmip:"BATCH_COUNT,required"`}})
 	for _, kv := range gentab.MapKeys["tagMap"] {
 		x := strings.SplitN(kv, "=", 2)[0]
-		if x == "-" || x == "ANY_TAG" || tagNum[x] == 0 {
+		if x == "-" || x == "ANY_TAG" || tagNum[x] == 0 || x == "ACTIVATION_DATE" {
 			continue
+		}
+		for _, pos := range []string{"single", "repeated"} {
+			ft := elem
+			switch pos {
+			case "pointer":
+				ft = reflect.PtrTo(elem)
+			case "repeated":
+				ft = reflect.SliceOf(elem)
+			}
+			st := reflect.StructOf([]reflect.StructField{
+				{Name: "Tag", Type: tTag, Anonymous: true, Tag: `kmip:"REQUEST_HEADER"`},
+				{Name: "F", Type: ft, Tag: reflect.StructTag(fmt.Sprintf(`kmip:"%s"`, x))}})
+			v := reflect.New(st)
+			one := reflect.New(elem).Elem()
+			one.Field(1).SetInt(3)
+			switch pos {
+			case "single":
+				v.Elem().Field(1).Set(one)
+			case "pointer":
+				p := reflect.New(elem)
+				p.Elem().Set(one)
+				v.Elem().Field(1).Set(p)
+			default:
+				v.Elem().Field(1).Set(reflect.Append(reflect.Append(reflect.MakeSlice(ft, 0, 2), one), one))
+			}
+			res, b, _ := realEncode(v.Interface())
+			r.Evaluations++
+			r.Stats["field-position-probes"]++
+			got := "encode failed: " + res
+			if strings.HasPrefix(res, "ok") {
+				var tags []string
+				for _, k := range mut.Parse(b)[0].Kids {
+					tags = append(tags, fmt.Sprintf("%06x", k.Tag))
+				}
+				got = strings.Join(tags, " ")
+			}
+			want := fmt.Sprintf("%06x", tagNum[x])
+			if pos == "repeated" {
+				want += " " + want
+			}
+			if got != want && bad < 5 {
+				bad++
+				r.find(Finding{Kind: "violation", What: "the field annotation kmip:\"" + x + "\" on a " + pos + " structure-typed field whose element declares a tag of its own does not resolve to the number of " + x,
+					Input: map[string]string{"annotation": x, "field": pos, "element's own annotation": "ACTIVATION_DATE", "bytes": hex.EncodeToString(b)}, Expect: want, Actual: got})
+			}
 		}
 		for fi, form := range forms {
 			f := form.f
@@ -491,7 +541,7 @@ func c19WireBig(r *Result) {
 	shape = func(ns []*mut.Node, sb *strings.Builder) bool {
 		ok := true
 		for _, n := range ns {
-			fmt.Fprintf(sb, "%06x", n.Tag)
+			fmt.Fprintf(sb, "%06x:%d", n.Tag, n.Typ)
 			if n.Typ == 1 {
 				used := 0
 				for _, k := range n.Kids {
@@ -511,13 +561,36 @@ func c19WireBig(r *Result) {
 		}
 		return ok
 	}
-	for _, c := range bigCases() {
+	// ... and small messages whose dynamically typed positions (attribute value, credential value, payloads) hold the structures
+	// the package models, by value and by pointer: the structure must appear as a structure, under the position's tag, with its
+	// own fields inside
+	name, digest := kmip.Name{Value: "k", Type: 1}, kmip.Digest{HashingAlgorithm: 6, DigestValue: []byte{1, 2, 3}, KeyFormatType: 1}
+	cred := kmip.CredentialUsernamePassword{Username: "u", Password: "p"}
+	ver := kmip.ProtocolVersion{Major: 1, Minor: 4}
+	cases := bigCases()
+	for _, top := range []interface{}{
+		&kmip.Attribute{Name: kmip.ATTRIBUTE_NAME_NAME, Value: name}, &kmip.Attribute{Name: kmip.ATTRIBUTE_NAME_NAME, Value: &name},
+		&kmip.Attribute{Name: kmip.ATTRIBUTE_NAME_DIGEST, Value: digest}, &kmip.Attribute{Name: kmip.ATTRIBUTE_NAME_DIGEST, Value: &digest},
+		&kmip.Authentication{CredentialType: kmip.CREDENTIAL_TYPE_USERNAME_AND_PASSWORD, CredentialValue: cred},
+		&kmip.Authentication{CredentialType: kmip.CREDENTIAL_TYPE_USERNAME_AND_PASSWORD, CredentialValue: &cred},
+		&kmip.Request{Header: kmip.RequestHeader{Version: ver, BatchCount: 1, Authentication: kmip.Authentication{CredentialType: kmip.CREDENTIAL_TYPE_USERNAME_AND_PASSWORD, CredentialValue: cred}},
+			BatchItems: []kmip.RequestBatchItem{{Operation: kmip.OPERATION_CREATE, RequestPayload: kmip.CreateRequest{ObjectType: kmip.OBJECT_TYPE_SYMMETRIC_KEY,
+				TemplateAttribute: kmip.TemplateAttribute{Name: name, Attributes: kmip.Attributes{{Name: kmip.ATTRIBUTE_NAME_NAME, Value: name}, {Name: kmip.ATTRIBUTE_NAME_DIGEST, Value: &digest}}}}}}},
+		&kmip.Response{Header: kmip.ResponseHeader{Version: ver, TimeStamp: time.Unix(1000000000, 0), BatchCount: 1},
+			BatchItems: []kmip.ResponseBatchItem{{Operation: kmip.OPERATION_GET_ATTRIBUTES, ResponsePayload: &kmip.GetAttributesResponse{UniqueIdentifier: "k", Attributes: kmip.Attributes{{Name: kmip.ATTRIBUTE_NAME_NAME, Value: name}}}}}},
+	} {
+		cases = append(cases, encCase{typ: reflect.TypeOf(top).Elem().Name(), top: top})
+	}
+	for _, c := range cases {
 		res, b, _ := realEncode(c.top)
 		r.Evaluations++
 		r.Stats["c19wire-big"]++
 		key := fmt.Sprintf("%s of %d bytes", c.typ, len(b))
+		if len(b) < 1024 {
+			key = fmt.Sprintf("%s %x", c.typ, b)
+		}
 		if !strings.HasPrefix(res, "ok") {
-			r.find(Finding{Kind: "violation", What: "a large well-formed message could not be encoded", Input: key, Actual: res})
+			r.find(Finding{Kind: "violation", What: "a well-formed message could not be encoded", Input: key, Actual: res})
 			continue
 		}
 		ref, ok := altEncode(c.top, altOpts{})
